@@ -129,13 +129,13 @@ CLAIMED = {
         engine="E3-history-machines",
         technique="TLA+ model of per-object memoize caches over query/derivation/settings histories (key discipline from the live classes), exhaustive TLC histories replayed with per-step cache-validity checks",
         text=("spec/LOCache.tla: objects (a base operator and operators derived from it) with exact dense denotations and a model of their "
-              "memoize caches; alphabet of 18 queries, 8 derivations, 2 settings toggles and return-to-parent. The table of which cached methods "
+              "memoize caches; alphabet of 19 queries (incl. the probe-vector Lanczos inverse root), 8 derivations, 2 settings toggles and return-to-parent, plus the "derived-then-parent" family of five-step histories emitted directly (FamilyStep). The table of which cached methods "
               "honour their arguments is extracted from the live class and passed to TLC, which checks CacheOwned / CacheValid / DenStable over "
               "all histories to the depth bound (an argument-ignoring Cholesky cache is rejected - non-vacuity) and prints every history with the "
               "exact matrix of every object. The replay runs each history on one real object (12 PD instance classes), judges every answer "
               "relationally against the exact matrix (= what a fresh copy satisfies), and after every step validates every _memoize_cache entry of "
               "every live object against the matrix of the object holding it."),
-        design="5/C12", note="TLC 1.8; relation checks in float64 against exact integer matrices; Lanczos-valued answers under max_cholesky_size(0) are executed but judged by C05/C06"),
+        design="5/C12", note="TLC 1.8; relation checks in float64 against exact integer matrices; Lanczos-valued roots / diagonalizations under max_cholesky_size(0) are judged by the compression relation of C06/C09, stochastic log-determinants are executed only"),
     "C13": dict(
         engine="E3-history-machines",
         technique="TLA+ alias/ownership model of the solvers' buffer handling checked by TLC for every argument layout; TLC-enumerated call cases executed with a version+bits monitor on every caller tensor",
@@ -143,8 +143,8 @@ CLAIMED = {
               "iff already contiguous, clone / out-of-place ops are fresh, trailing-underscore ops write). The buffer handling of linear_cg, "
               "psd_safe_cholesky, pivoted Cholesky and Lanczos is transcribed as straight-line programs; TLC runs them for every layout of every "
               "caller argument and checks NoCallerWrite; four variants without a defensive copy are rejected. spec/MC_C13.tla enumerates "
-              "operation x argument role x layout {contiguous, expanded stride-0, transposed view, slice of a larger storage} x 21 operator "
-              "classes (incl. identity-diagonal composites whose products alias their argument) x batch x {direct, CG path} and 18 utility "
+              "operation x argument role x layout {contiguous, expanded stride-0, transposed view, slice of a larger storage} x 23 operator "
+              "classes (incl. identity-diagonal composites and constant multiples of identities, whose products alias their argument) x batch x {direct, CG path} and 18 utility "
               "kernels; each case is executed and every caller cell (argument base storages, every tensor defining the operator) is compared "
               "by _version and bits; the operator must still densify to the same matrix."),
         design="5/C13", note="TLC 1.8; torch's _version counter; harness/checks/c13.py argument builders"),
